@@ -97,7 +97,46 @@ def _pscale(p, c):
 MAX_TERMS = 6000
 
 
+def _merge_exp(m):
+    """exp(u)^a * exp(v)^b -> exp(a u + b v) inside one monomial."""
+    c = _ctx._CUR[0]
+    if c is None or len(m) < 1:
+        return m, None
+    ex_ = [(a, k) for a, k in m if c.atom_keys[a][0] == 'exp']
+    if len(ex_) < 2 and not (len(ex_) == 1 and ex_[0][1] > 1):
+        return m, None
+    tot = {}
+    for a, k in ex_:
+        tot = _padd(tot, _pscale(dict(c.atom_keys[a][1]), Fr(k)))
+    rest = tuple((a, k) for a, k in m if c.atom_keys[a][0] != 'exp')
+    e = exp(SymReal(tot)) if tot else 1.0
+    return rest, e
+
+
 def _pmul(p, q):
+    r = _pmul_raw(p, q)
+    c = _ctx._CUR[0]
+    if c is None or not c.fun_atoms.get('exp'):
+        return r
+    out = {}
+    changed = False
+    for m, co in r.items():
+        m2, e = _merge_exp(m)
+        if e is None:
+            v = out.get(m, 0) + co
+            if v == 0:
+                out.pop(m, None)
+            else:
+                out[m] = v
+            continue
+        changed = True
+        term = {m2: co}
+        term = _pmul_raw(term, lift(e).p)
+        out = _padd(out, term)
+    return out if changed else r
+
+
+def _pmul_raw(p, q):
     if len(p) * len(q) > MAX_TERMS:
         # let-bind the larger factor to keep the normal form small
         if len(p) >= len(q):
@@ -569,6 +608,12 @@ def inv(b):
 
 def _inv_atom(bn):
     c = _ctx.cur()
+    # 1/exp(u) = exp(-u)
+    if len(bn.p) == 1:
+        (m, co), = bn.p.items()
+        if len(m) == 1 and m[0][1] == 1 and co == 1 and c.atom_keys[m[0][0]][0] == 'exp':
+            u = SymReal(dict(c.atom_keys[m[0][0]][1]))
+            return lift(exp(mul(-1.0, u)))
     k = ('inv', bn.key())
     idx = c.atom_by_key.get(k)
     if idx is None:
@@ -925,6 +970,9 @@ def _exp_point_axiom(c, v, az, xc, yc):
     lo = _rv(Fr(yc) * (1 - Fr(1, 2 ** 50)))
     hi = _rv(Fr(yc) * (1 + Fr(1, 2 ** 50)))
     c.add_axiom(z3.And(z3.Implies(az <= xz, v <= hi), z3.Implies(az >= xz, v >= lo)))
+    d = Fr(1, 10 ** 6)
+    c.add_axiom(z3.And(z3.Implies(az <= _rv(Fr(xc) + d), v <= _rv(Fr(yc) * (1 + 2 * d))),
+                       z3.Implies(az >= _rv(Fr(xc) - d), v >= _rv(Fr(yc) * (1 - 2 * d)))))
 
 
 def note_exp_point(x, y):
@@ -955,6 +1003,11 @@ def _log_point_axiom(c, v, az, tc, lc):
     lz = _rv(Fr(lc))
     c.add_axiom(z3.And(z3.Implies(z3.And(az > 0, az <= tz_lo), v <= lz),
                        z3.Implies(az >= tz_hi, v >= lz)))
+    # continuity slack: within a relative 1e-9 of the point the value is within 2e-9
+    d = Fr(1, 10 ** 7)
+    c.add_axiom(z3.And(z3.Implies(az >= _rv(Fr(tc) * (1 - d)), v >= _rv(Fr(lc) - 2 * d)),
+                       z3.Implies(z3.And(az > 0, az <= _rv(Fr(tc) * (1 + d))),
+                                  v <= _rv(Fr(lc) + 2 * d))))
 
 
 def log(a):
